@@ -213,14 +213,30 @@ def build(c, xs):
     raise ValueError(c)
 
 
-def run_single(dom, cond):
-    """single-variable query: list of results of the real engine, and the reference list."""
+def run_single(dom, cond, variant=0):
+    """single-variable query: list of results of the real engine, and the reference list.  `variant` picks one of the
+    equivalent spellings of the query: an(entity(x, c)) / an(set_of([x], c)) / the conditions given one by one when c is a
+    conjunction / evaluated inside a symbolic block"""
     with symbolic_mode():
         x = let(type_=Item, domain=dom)
-        q = an(entity(x, build(cond, [x])))
-    got = list(q.evaluate())
+        if variant % 4 == 1:
+            q = an(set_of([x], build(cond, [x])))
+        elif variant % 4 == 2 and cond[0] == 'and':
+            q = an(entity(x, build(cond[1], [x]), build(cond[2], [x])))
+        else:
+            q = an(entity(x, build(cond, [x])))
+    unwrap = (lambda r: r[x]) if variant % 4 == 1 else (lambda r: r)
+    if variant % 4 == 3:
+        with symbolic_mode():
+            got = [unwrap(r) for r in q.evaluate()]
+    else:
+        got = [unwrap(r) for r in q.evaluate()]
     want = [o for o in dom if holds(cond, {0: o})]
-    return got, want, q
+
+    class _Q:       # re-evaluation handle giving plain objects whatever the spelling
+        def evaluate(self_inner):
+            return (unwrap(r) for r in q.evaluate())
+    return got, want, _Q()
 
 
 def run_multi(doms, cond, sel=None):
